@@ -78,3 +78,18 @@ add("C13", "exploration",
     "Every interleaving, at system-call granularity, of A:Close[,Open] / B:Open[,Close] / C:Open is executed against the real file system and flock (2 participants exhaustively in the quick tier, 3 participants sampled by subtree in quick and exhaustively in thorough); at no step may two handles be open, failed Opens must return 'locked', acknowledged writes must survive. All 32 clean/unclean 5-session chains per file system check that recovery runs exactly after unclean ends and that a rejected competing Open leaves the directory byte-identical.",
     "flock semantics between open file descriptions of one process equal those between processes. More than three concurrent openers and non-unix lock implementations are not explored.",
     "DESIGN.md 4/C13")
+add("C07", "exploration",
+    "offline linearizability checking (porcupine v1.3.0, per-key register-with-delete model) of call/return histories recorded at the client boundary under the race-detector build, with writers handed into compaction windows through the verif yield hook; history-derived sound bounds for Count",
+    "Many short concurrent runs (4-12 workers on 2-6 hot keys incl. full-hash collisions and one overflow chain, churn keys forcing splits, Compact loop, Sync, Backup, Count, scanners, background worker) are recorded with unique written values and tickets from one atomic counter and checked by porcupine per key; Unknown (timeout) is inconclusive. Count results are checked against bounds that cannot flag a linearizable execution.",
+    "Only the interleavings produced by the Go scheduler, injected sleeps and the window handshake are observed. Items scans are judged by C11's rule.",
+    "DESIGN.md 4/C07")
+add("C10", "exploration",
+    "Go race detector (+checkptr, SetPanicOnFault) over stress runs of every public method with Close fired mid-run; race-log parser deduplicating by outermost entry-point pair; child-process crash capture; deadlock picture from goroutine dumps; goroutine-leak poll; post-Close contents oracle on clean reopen and forced recovery",
+    "Short runs on Mem/OS/OSMMap in which 6-16 goroutines call all public methods (shared and private iterators included) while Close is fired at a PRNG-chosen call count and callers continue afterwards; any race report with a library frame, panic, fatal error or fault, proven deadlock, leftover library goroutine, nil-returning write after Close, or post-Close contents other than the effects of nil-returning calls (calls that failed may or may not have taken effect, as the statement allows) is a violation.",
+    "The race detector sees only executed paths. A watchdog firing without a stable all-parked dump is inconclusive, never a violation.",
+    "DESIGN.md 4/C10")
+add("C12", "exploration",
+    "runtime monitor over recorded write/backup tickets: per-writer prefix matching of the opened backup within the admissible window plus a common-instant check; writes placed deterministically inside Backup through the verif yield hooks; concurrent runs under the race detector",
+    "Backups taken while the harness writes inside Backup's capture->copy window (forcing rollovers, overwriting and deleting already-copied keys, attempting Compact) and while 1-4 concurrent writers and 1 ms background compaction run; every backup must be returned without error, open by log replay, equal - per writer - a prefix of that writer's calls between 'acknowledged before the call' and 'issued before the return', admit one common instant across writers, and leave the source equal to its reference.",
+    "Writers are sequential with disjoint keys. Ambiguous prefixes are resolved in the implementation's favour.",
+    "DESIGN.md 4/C12")
